@@ -60,7 +60,7 @@ Definition dispatch (f : bytes) (a : list bytes) : list bytes :=
     let root := arg 0 a in let keep := flag (arg 1 a) in let lazy := flag (arg 2 a) in let now := num (arg 3 a) in
     let '(l, os, _) := dec_entries (N.to_nat (num (arg 4 a))) (skipn 5 a) in
     let g := oracle os in
-    let es := walk root l in
+    let es := walk l in
     let st := run g keep lazy now (init (lookup l)) es in
     [b2 (wf_tree g lazy root l); b2 (exit_fail (errs st)); dec (N.of_nat (length es))]
     ++ map of_path es
